@@ -1078,8 +1078,90 @@ func randSmallCase(r *core.Rand) string {
 	return fmt.Sprintf("rmdata %s %s", hx(randScriptCode(r, sig, false)), hx(sig))
 }
 
+// boundary triples: every varint-prefixed field at the compact-size steps, push encodings at
+// the PUSHDATA steps, counts at the steps
+func genBoundaries(g *core.Gen) {
+	r := g.R
+	ones := func(n int) []byte { return bytes.Repeat([]byte{0x51}, n) }
+	for _, n := range []int{251, 252, 253, 254, 255, 256, 65534, 65535, 65536, 65537} {
+		hts := []uint32{1, 3, 0x81, 0x83}
+		if n > 60000 && !g.Thorough() {
+			hts = []uint32{1, 0x83}
+		}
+		for _, ht := range hts {
+			tx, spent := randTx(r, 2, 2)
+			for i, in := range tx.TxIn {
+				in.PreviousOutPoint.Hash[0] = byte(i)
+			}
+			forceKind(r, spent, false)
+			g.Case("boundary-script-length", true, fmt.Sprintf("C07 legacy %s 1 %d %s", encTx(tx), ht, hx(ones(n))))
+			g.Case("boundary-script-length", true, fmt.Sprintf("C07 wit %s %s 1 %d %s 5000", encTx(tx), encSpent(spent), ht, hx(ones(n))))
+			// output script / spent script / scriptSig of the other input of that length
+			tx.TxOut[1].PkScript = ones(n)
+			tx.TxIn[0].SignatureScript = ones(n)
+			g.Case("boundary-script-length", true, fmt.Sprintf("C07 legacy %s 1 %d 51", encTx(tx), ht))
+			g.Case("boundary-script-length", true, fmt.Sprintf("C07 wit %s %s 1 %d 51 5000", encTx(tx), encSpent(spent), ht))
+			forceKind(r, spent, true)
+			spent[1].PkScript = ones(n) // not P2TR any more: committed through ACP / sha_scriptpubkeys
+			spent[0].PkScript = append([]byte{0x51, 0x20}, r.Bytes(32)...)
+			g.Case("boundary-script-length", true, fmt.Sprintf("C07 tap %s %s 1 %d %s x", encTx(tx), encSpent(spent), ht, hx(append([]byte{0x50}, ones(n-1)...))))
+		}
+		// removal of a signature push of that length in every encoding that can hold it
+		sig := r.Bytes(n)
+		var script []byte
+		script = append(script, push(sig)...)
+		script = append(script, 0xab)
+		for _, op := range []byte{0x4c, 0x4d, 0x4e} {
+			if (op == 0x4c && n > 0xff) || (op == 0x4d && n > 0xffff) {
+				continue
+			}
+			script = append(script, pushWith(op, sig)...)
+		}
+		script = append(script, 0xac)
+		g.Case("boundary-push-length", true, fmt.Sprintf("C07 rmdata %s %s", hx(script), hx(sig)))
+		g.Case("boundary-push-length", true, fmt.Sprintf("C07 rmop %s 171", hx(script)))
+	}
+	for _, n := range []int{0x4a, 0x4b, 0x4c, 0x4d} {
+		sig := r.Bytes(n)
+		script := append(append(push(sig), pushWith(0x4c, sig)...), pushWith(0x4d, sig)...)
+		g.Case("boundary-push-length", true, fmt.Sprintf("C07 rmdata %s %s", hx(script), hx(sig)))
+	}
+	for v := 0; v <= 18; v++ { // one-byte data 0..18: OP_N would be the canonical push up to 16
+		script := []byte{0x01, byte(v), 0x4c, 0x01, byte(v), byte(0x50 + v%17)}
+		g.Case("boundary-push-length", true, fmt.Sprintf("C07 rmdata %s %02x", hx(script), v))
+	}
+	// counts at the compact-size steps
+	counts := []int{65535, 65536}
+	for _, n := range counts {
+		tx, spent := randTx(r, 1, 0)
+		for j := 0; j < n; j++ {
+			tx.TxOut = append(tx.TxOut, &wire.TxOut{Value: int64(j & 1)})
+		}
+		forceKind(r, spent, false)
+		g.Case("boundary-count", true, fmt.Sprintf("C07 legacy %s 0 1 51", encTx(tx)))
+		g.Case("boundary-count", true, fmt.Sprintf("C07 wit %s %s 0 1 51 1", encTx(tx), encSpent(spent)))
+		g.Case("boundary-count", true, fmt.Sprintf("C07 legacy %s 0 3 51", encTx(tx)))
+		if g.Thorough() {
+			tx2, spent2 := randTx(r, 1, 1)
+			in0 := tx2.TxIn[0]
+			in0.SignatureScript, in0.Witness = nil, nil
+			tx2.TxIn = nil
+			spent2 = nil
+			for j := 0; j < n; j++ {
+				in := *in0
+				in.PreviousOutPoint.Index = uint32(j)
+				tx2.TxIn = append(tx2.TxIn, &in)
+				spent2 = append(spent2, &wire.TxOut{Value: 1, PkScript: []byte{0x51}})
+			}
+			g.Case("boundary-count", true, fmt.Sprintf("C07 legacy %s %d 1 51", encTx(tx2), n-1))
+			g.Case("boundary-count", true, fmt.Sprintf("C07 wit %s %s %d 2 51 1", encTx(tx2), encSpent(spent2), n-1))
+		}
+	}
+}
+
 func genHardening(g *core.Gen) {
 	r := g.R
+	genBoundaries(g)
 	// ---- independent digest computations running concurrently (no hidden shared state)
 	for k := 0; k < g.N(120, 2500); k++ {
 		n := 8 + r.Intn(5)
